@@ -61,7 +61,7 @@ def pseudonym_index(repl, max_n):
         m = re.fullmatch(r"netconanRemoved(\d+)", txt)
         if m:
             return int(m.group(1))
-        if spec_class(repl) == "jun9" and spec_class(txt) in ("numeric", "hex", "type7"):
+        if spec_class(repl) == "jun9" and spec_class(txt) in ("numeric", "hex", "type7", "md5", "sha512"):
             return pseudonym_index(txt, max_n)      # `$9$` of a clear text that was first seen (and rendered) in another class
     return None
 
@@ -114,6 +114,12 @@ def gen_history(rng, n, classes=None, pool_size=6, same_plain9=True, nsalts=2, s
             for k in range(nsalts):                                         # the same with an all-digit / hexadecimal plaintext
                 pool.append((ref_encrypt(p2, ALPHA[(salt0 + 3 * k + 2) % 65]), "jun9"))
             pool.append((p2, spec_class(p2)))
+    if same_plain9 and (classes is None or ("sha512" in classes and "jun9" in classes)):
+        from .jun_checks import ref_encrypt as _re9
+        p6 = L.gen_secret(rng, "sha512")                # a sha512-crypt hash in clear and the `$9$` encodings of that very text
+        pool.append((p6, "sha512"))
+        for k in range(2):
+            pool.append((_re9(p6, ALPHA[(salt0 + 11 * k + 5) % 65]), "jun9"))
     if classes is None or ("type7" in classes and "hex" in classes):
         from passlib.hash import cisco_type7 as _t7
         p3 = rng.choice(["%08d" % rng.randint(10 ** 6, 10 ** 8 - 1), "c0ffee%02d" % rng.randint(0, 99)])
@@ -328,6 +334,47 @@ def c07_scope(res, pid, rng, tier):
                 fails.append({"kind": "the secret survives in the output or in an INFO+ log record", "salt": cfgh.salt, "line": ln, "output": out,
                               "detail": "a piece of the secret is left next to the pseudonym, or one of two secrets is kept"})
                 break
+    # (b2) standalone `$1$` / `$9$` tokens that only the catch-all patterns recognise, also malformed ones (salt longer than 8, no second `$`)
+    cfgc = fa.FaCfg(salt=SALTS[(res.seed + 1) % len(SALTS)], pwd=True)
+    toks = ["$1$abcdefghi$Xw1kQz8fLr3pT0vYb6NcM.", "$1$abcdefghijkl$Xw1kQz8fLr3pT0vYb6NcM.", "$1$nosecondpart", "$1$ab$Xw1kQz8fLr3pT0vYb6NcM.",
+            "$9$-tyVs2aZjHqfTz3nCu0-VwYgoJDikmfz", "$9$Be4Ehy-b2GDkevYo"]
+    lines_c = [t_ % k_ + "\n" for k_ in toks for t_ in ("my hash is %s", "# previous value was %s before the change", "remark %s")]
+    try:
+        oc_, _ = run_lines(cfgc, lines_c)
+    except Exception as e:  # noqa
+        fails.append({"kind": "anonymize_io raised on a recognised line form", "exc": repr(e), "salt": cfgc.salt})
+        oc_ = []
+    for ln, out in zip(lines_c, oc_):
+        res.evaluations += 1
+        tk = [t_ for t_ in toks if t_ in ln][0]
+        if tk in out or tk[3:].split("$")[-1] in out:
+            fails.append({"kind": "the secret survives in the output or in an INFO+ log record", "salt": cfgc.salt, "line": ln, "output": out})
+    # (b3) two directory runs in one process with the same settings: each run is a run of its own (its secrets are numbered from 0, whatever
+    #      an earlier run saw)
+    import tempfile as _tf2
+    import shutil as _sh2
+    from netconan.anonymize_files import anonymize_files as _af2
+    d2 = _tf2.mkdtemp(prefix="ncverif_")
+    try:
+        sA, sB = "SiteAsecretQ%d" % rng.randint(10, 99), "SiteBsecretW%d" % rng.randint(10, 99)
+        for site, body in (("A", "username x password 0 %s\nusername y password 0 otherAkey77\n" % sA),
+                           ("B1", "username z password 0 %s\n" % sA), ("B2", "username z password 0 %s\n" % sB)):
+            os.makedirs(os.path.join(d2, site, "in"))
+            open(os.path.join(d2, site, "in", "r.cfg"), "w").write(body)
+        outs2 = {}
+        with fa.LogCap():
+            for site in ("A", "B1", "B2"):
+                _af2(os.path.join(d2, site, "in"), os.path.join(d2, site, "out"), True, False, salt="sameSalt")
+                outs2[site] = open(os.path.join(d2, site, "out", "r.cfg")).read()
+        res.evaluations += 3
+        if outs2["B1"] != outs2["B2"].replace(sB, sA) or "netconanRemoved0" not in outs2["B1"]:
+            fails.append({"kind": "output or INFO+ log depends on the secret's content", "detail": "a later directory run in the same process with the same "
+                          "settings gives a secret that an earlier run saw another pseudonym than a secret it did not see",
+                          "earlier_run": "username x password 0 %s ..." % sA, "run_with_that_secret": outs2["B1"], "run_with_another_secret": outs2["B2"]})
+    except Exception as e:  # noqa
+        fails.append({"kind": "anonymize_io raised on a recognised line form", "exc": repr(e), "entry_point": "anonymize_files twice"})
+    finally:
+        _sh2.rmtree(d2, ignore_errors=True)
     # (c) the file entry points on a text that contains control characters (NUL, BEL, ESC) somewhere: a config is text, every secret goes
     import tempfile
     import shutil
@@ -779,6 +826,16 @@ def c09_scope(res, pid, rng, tier):
             s_ = L.gen_secret(rng, cls_)
             for term, tail_ in ((",", " privilege 15"), (";", " ## SECRET-DATA"), ("]", " extra"), ("}", " more")):
                 extra.append((f_.format(s_) + term + tail_ + "\n", "", f_.replace("{}", "{}" + term + tail_), s_))
+        # (v) a quoted key followed by other quoted text on the line
+        s_q = re.sub(r"[^A-Za-z0-9]", "x", L.gen_secret(rng, "text")) + "9k"
+        extra.append(('  key "%s" description "uplink to core"\n' % s_q, "", '  key "{}" description "uplink to core"', s_q))
+        extra.append(('set system login user a authentication secret "%s"; ## "quoted note"\n' % s_q, "",
+                      'set system login user a authentication secret "{}"; ## "quoted note"', s_q))
+        # (vi) very long lines: the secret across offset 65536 of its line
+        for cls_, f_ in (("md5", "enable secret 5 {}"), ("jun9", 'secret "{}"'), ("type7", "password 7 {}")):
+            s_l = L.gen_secret(rng, cls_)
+            padl = "description " + "x" * (65536 - len(f_.format("")) - 12 - rng.randint(2, max(2, min(12, len(s_l) - 2)))) + " "
+            extra.append((padl + f_.format(s_l) + "\n", padl, f_, s_l))
         # (iv) minified JSON / XML: further fields follow the key on the same line and stay where they are
         k32 = "".join(rng.choice("0123456789abcdef") for _ in range(31)) + "e"
         extra.append(('{"PreSharedKey": "%s", "TunnelName": "left-uplink/30", "Note": "x"}\n' % k32, "",
